@@ -45,6 +45,17 @@ theorem jdn_succ (y m d : Int) (hy : 0 ≤ y) (hm1 : 1 ≤ m) (hm2 : m ≤ 12) (
 example : nextDay 2000 2 28 = (2000, 2, 29) ∧ nextDay 1900 2 28 = (1900, 3, 1) ∧
     nextDay 2999 12 31 = (3000, 1, 1) := by decide
 
+/-- The day of the week advances by one (mod 7) from each calendar day to the next, and
+2000-01-01 was a Saturday (`WeekDay`, Sunday = 0). -/
+theorem weekDay_succ (f : Fields) (hy : 0 ≤ f.yr) (hm1 : 1 ≤ f.mon) (hm2 : f.mon ≤ 12) (hd1 : 1 ≤ f.day)
+    (hd2 : f.day ≤ daysInMonth f.yr f.mon) :
+    weekDay ⟨(nextDay f.yr f.mon f.day).1, (nextDay f.yr f.mon f.day).2.1, (nextDay f.yr f.mon f.day).2.2,
+      f.hr, f.min, f.sec, f.ms⟩ = (weekDay f + 1) % 7 ∧ weekDay ⟨2000, 1, 1, 0, 0, 0, 0⟩ = 6 := by
+  have := Gsu.Date.jdn_succ f.yr f.mon f.day hy hm1 hm2 hd1 hd2
+  refine ⟨?_, by decide⟩
+  simp only [weekDay, this]
+  omega
+
 /-! ## addition = normalisation of the overflowed fields -/
 
 /-- `Plus` is `normalize` of the field-wise sum, and whenever `normalize` returns a date it is a
